@@ -36,6 +36,13 @@ func divergeMode(args []string) {
 	spec := fs.Arg(0)
 	if spec == "nocheck" {
 		o.NoCheck = true
+	} else if spec == "wit" {
+		o.ReinitWit = true
+	} else if spec == "nojobs" {
+		o.ReinitWit, o.ClearJobs = true, true
+	} else if strings.HasPrefix(spec, "ident:") {
+		o.Identity = strings.TrimPrefix(spec, "ident:")
+		o.ReinitWit = true
 	} else {
 		o.Restart = map[int64]string{}
 		for _, p := range strings.Split(spec, ",") {
